@@ -253,4 +253,21 @@ PROPS = {
             'constants shared between subgraphs with conflicting uses are rejected (C15/C08 F17-F18); those cases are counted and skipped',
             'locality of plan generation across subgraphs (global result dict keyed by name) is tied by correspondence P on multi-subgraph models and by the oracle, not proved'],
     },
+    'C14': {
+        'steps': [{'script': 'corr_plan.py', 'timeout': 1500, 'timeout_thorough': 6000},
+                  {'script': 'corr_graph.py', 'timeout': 1500, 'timeout_thorough': 6000},
+                  {'script': 'oracle_c14.py', 'timeout': 1500, 'timeout_thorough': 6000}],
+        'required_theorems': ['C14_output_is_a_function_of_model_rule_list_and_statistics',
+                              'C14_queries_leave_recipe_unchanged'],
+        'rule': GRAPH_RULE + ('; C14 oracle: per case a fresh Quantizer (reference sha256) vs the same call repeated vs a '
+                              'Quantizer with a random history of 1-4 other calls (rules, shipped recipe, calibrate, quantize, '
+                              'validate, other Quantizer objects on other models) followed by load(target recipe JSON); caller '
+                              'objects deep-compared around every call; a batch of outputs recomputed in fresh processes '
+                              'under PYTHONHASHSEED=1,2(,3). non-trivial = quantize returned; distinct = distinct output hash'),
+        'trusted_base': COMMON_TB + GRAPH_TB + [
+            'absence of hidden state in the implementation (module-level caches, objects kept between calls) is what the oracle and correspondence P/E test; the model has none by construction'],
+        'assumptions': GRAPH_ASSUME + [
+            'in the model API functions are mathematical functions; the theorem is that the Quantizer state influences the pipeline only through the flattened rule list, for all histories',
+            'determinism across processes / hash seeds is observed (oracle), not provable in Coq'],
+    },
 }
